@@ -138,7 +138,7 @@ META = {
     "C11": {
         "level": "exploration",
         "evaluations": ["checks_run"],
-        "required": ["runs_with_failure", "family:forced", "family:random", "verbose_runs", "family:deep-abandon", "deep_abandoned_cases", "family:shared-skip-site"],
+        "required": ["runs_with_failure", "family:forced", "family:random", "verbose_runs", "family:deep-abandon", "deep_abandoned_cases", "family:shared-skip-site", "family:machine-cases"],
         "show": ["checks_run", "runs_with_failure", "cases", "verbose_runs"],
         "rule": "per-case behaviour is a function of the case's first draw: all 4^3 orders of {Errorf, Skip, cleanup-time Errorf, pass} and all ordered "
                 "pairs of 14 behaviours (incl. Skip from a cleanup, cleanups registering cleanups) are forced onto consecutive cases (dry run with the same seed yields each case's first draw), plus random "
@@ -186,7 +186,7 @@ META = {
         "level": "exploration",
         "evaluations": ["checks_run"],
         "required": ["cells_fired", "skip_only_runs", "ctx:body", "ctx:action", "ctx:invariant", "ctx:custom-inner", "ctx:custom-outer", "ctx:cleanup-body",
-                     "ctx:cleanup-action", "ctx:cleanup-custom", "ctx:goroutine", "pos:first", "pos:middle", "pos:last", "pos:after-skips", "pos:late-step"],
+                     "ctx:cleanup-action", "ctx:cleanup-custom", "ctx:goroutine", "pos:first", "pos:middle", "pos:last", "pos:after-skips", "pos:late-step", "nth_execution_runs"],
         "show": ["checks_run", "cells_fired", "skip_only_runs"],
         "rule": "enumeration of the matrix: 15 failure kinds (panic string/error/struct/nil, 3 runtime errors, Fatal, Fatalf, FailNow, Error, Errorf, Fail, "
                 "Error()/Errorf(\"\") with empty message) x 9 callback contexts x position of the falsifying case (first, middle, the checks-th, after 9 "
@@ -427,19 +427,19 @@ _MORE9 = {
     "C17": "Every other of the 400 unusable entries of the many-empty-files child is a directory with the name of a fail file.",
 }
 _MORE10 = {
-    "C02": "Variant then-more-draws: after a non-fatal failure the callback goes on drawing, also values of other Custom generators, through the T it signalled on and through the enclosing T.",
+    "C02": "Family nth-execution: a property that is falsified (every failure kind) only in its n-th execution, whatever it is given: that execution falsified it, the test must fail (rapid may call it flaky). Variant then-more-draws: after a non-fatal failure the callback goes on drawing, also values of other Custom generators, through the T it signalled on and through the enclosing T.",
     "C03": "Family long: typed generators of long values (67 to 5000 bytes / elements: byte slices, regexp byte slices and strings, strings, integer slices, maps) drawn with the draw log on and off (MakeFuzz, Check with and without -rapid.v, the final replay of a failing Check); every value is checked when returned and again when the test case ends.",
     "C04": "Family fuzz-history: one MakeFuzz target is fed 40 inputs in a row (recordings cut short, extended, with hostile words); each input must end and draw as on a fresh target. Family abuse-history: ONE generator instance (6-16 nested combinators of every kind over an often-rejecting leaf) records 24 seeds, then 2500 other seeds (a third of the draws give up and unwind through all frames) and 200 truncated replays, then the 24 seeds again: same values, same bits, same replays.",
     "C06": "A tenth of the histories reach the fail file through a symbolic link (the file is moved into a store before the next run); a fifth are 'upgrade' histories: after the replays the saved file is turned into another version's, the test fails again with the flags of run 1 - that failure must be persisted afresh (exactly one file of the current version, named in the message, holding the minimised case) and replayed first by the run after it.",
     "C09": "A third of the planted fail files are symbolic links into a store; the fail-file family also plants 24, 45, 70 and 130 files (every one is replayed). A child process with a real *testing.T and go test -timeout 8s must still replay a fail file that falsifies the property first.",
     "C14": "In a fifth of the scenarios the workers use a lock of the user's own: held around the non-logging methods of T, and taken by the String method of a value passed to Log/Logf/Errorf (lock order: user lock, then T's; a library that formats arguments while holding T's lock deadlocks, which the hang watchdog reports).",
     "C12": "Two more ways of failing: a panic with a freshly allocated wrapped error and with a pointer to a struct holding further pointers (same text in every execution, other addresses).",
-    "C15": "Family fuzz-target: ONE function returned by MakeFuzz is called from 6-15 parallel sub-tests at once, each with its own input (a recording made alone on an equal tree); status and draws of every call are those of a replay of its input. After every round the description (String) of the shared generator and of every generator the checks built on it must equal that of a freshly built equal tree. Family failing-together: 3-7 FAILING checks (a threshold each) at once over one shared generator on same-named test objects; each executes exactly the test cases (search, reproduction, every minimisation attempt, final replay) it executes alone.",
+    "C15": "Family fuzz-target: ONE function returned by MakeFuzz is called from 6-15 parallel sub-tests at once, each with its own input (a recording made alone on an equal tree); status and draws of every call are those of a replay of its input. In a third of the rounds every test case of every check BUILDS a generator on the shared one (Map, Filter, OneOf, SliceOfN, Custom) and draws from it. After every round the description (String) of the shared generator and of every generator the checks built on it must equal that of a freshly built equal tree. Family failing-together: 3-7 FAILING checks (a threshold each) at once over one shared generator on same-named test objects; each executes exactly the test cases (search, reproduction, every minimisation attempt, final replay) it executes alone.",
     "C18": "Freshness also after the test binary has seeded the global math/rand source itself (rand.Seed(42) before each of two Checks).",
     "C17": "The descriptor-limited child plants 800 unusable entries (empty files, directories, binary files starting with control bytes, text) in front of the usable one and its property opens files of its own. In the explicit families a problem with a fail file must never be an ERROR of the test.",
-    "C11": "Family shared-skip-site: non-fatal failure when a > ta, then ONE Skip statement reached when b > tb by failing and non-failing cases alike; the test case presented after minimisation must be one that signalled (C01 oracle). Family deep-abandon: a 600-case Check in which every second test case is abandoned 8-16 generator levels deep; the property never signals a failure and must pass.",
+    "C11": "Family machine-cases: a never-failing bounded-buffer machine (put / get / clear skip before drawing when not applicable, peek gives up after drawing in half of its attempts) run for 300 cases on the T that Check reuses must pass. Family shared-skip-site: non-fatal failure when a > ta, then ONE Skip statement reached when b > tb by failing and non-failing cases alike; the test case presented after minimisation must be one that signalled (C01 oracle). Family deep-abandon: a 600-case Check in which every second test case is abandoned 8-16 generator levels deep; the property never signals a failure and must pass.",
     "C13": "One input in seven is TEXT (the text of a well-formed fail file of this version holding a recording of the same property, a go fuzz corpus header, hex lines, JSON): bytes like any others.",
-    "C16": "Family fault: one file-system call of the save (mkdirat, openat, write, close, renameat, unlinkat; first and last call of every name in the quick tier, every call in the thorough tier) is made to FAIL (ENOSPC, EIO, EDQUOT, EACCES, EMFILE, EXDEV, EBUSY, EROFS by strace error injection); the faulted run is judged by the same trace and directory oracles, and the process is then killed at every later file-system call (of another name - strace keeps one injection per call name) of the error path the library takes. A third of the crash scenarios let minimisation run to its end first (the crash window is the whole failing Check, not only the save). Family explicit: the failing run was started with -rapid.failfile naming a file that is missing or a complete fail file that no longer reproduces (inside or outside the test's directory): that path is picked up by the next run with the same command line, so it must never be opened for writing and must hold what it held before, or a complete save, at every crash point. Family existing: an earlier run of the test (logging other text) has left its fail file; the failing run reproduces from it (found by the glob or named with -rapid.failfile): that file is never opened for writing and at every crash point holds what it held or a complete file with the same test case.",
+    "C16": "Family fault: one file-system call of the save (mkdirat, openat, write, close, renameat, unlinkat; first and last call of every name in the quick tier, every call in the thorough tier) is made to FAIL (ENOSPC, EIO, EDQUOT, EACCES, EMFILE, EXDEV, EBUSY, EROFS by strace error injection); the faulted run is judged by the same trace and directory oracles, and the process is then killed at every later file-system call (of another name - strace keeps one injection per call name) of the error path the library takes. A third of the crash scenarios let minimisation run to its end first (the crash window is the whole failing Check, not only the save). Family explicit: the failing run was started with -rapid.failfile naming a file that is missing or a complete fail file that no longer reproduces (inside or outside the test's directory): that path is picked up by the next run with the same command line, so it must never be opened for writing and must hold what it held before, or a complete save, at every crash point. Family existing: an earlier run of the test (logging other text) has left its fail file; the failing run reproduces from it (found by the glob, or named with -rapid.failfile inside or outside the test's directory): that file is never opened for writing and at every crash point holds what it held or a complete file with the same test case.",
 }
 for _k, _v in _MORE10.items():
     _MORE9[_k] = _MORE9.get(_k, "") + " " + _v
